@@ -23,13 +23,13 @@ def flatten(lex) -> dict:
     for sb in lex.get('frames', []):
         if sb.get('id'):
             out['frames'].append(sb['id'])
-    for e in lex.get('entries', []):
+    for ei, e in enumerate(lex.get('entries', []), 1):
         out['entries'].append([e['id'], e['lemma']['writtenForm']])
         for f in e.get('forms', []):
             if f.get('id'):
                 out['forms'].append(f['id'])
         for s in e.get('senses', []):
-            out['senses'].append([s['id'], e['id'], s['synset']])
+            out['senses'].append([s['id'], e['id'], s['synset'], ei])
             for r in s.get('relations', []):
                 out['srels'].append([s['id'], r['relType'], r['target'],
                                      (r.get('meta') or {}).get('type', '~')])
